@@ -193,8 +193,11 @@ package types
 //@ func accountExistInMacPerms(accountId) (found)
 //@   trusted
 //@   ensures found == moduleExists(accountId)
+//@ // (since the aliasing fix: a module or base account is never the distributor's own main account, which is named by type MAIN only)
 //@ pred accountValidated(a) = (a.Type == "MAIN" || a.Type == "INTERNAL_ACCOUNT" || a.Type == "BASE_ACCOUNT" || a.Type == "MODULE_ACCOUNT")
-//@   && (a.Type == "MODULE_ACCOUNT" ==> moduleExists(a.Id)) && (a.Type == "BASE_ACCOUNT" ==> bech32ok(a.Id)) && (a.Type == "INTERNAL_ACCOUNT" ==> a.Id != "")
+//@   && (a.Type == "MODULE_ACCOUNT" ==> moduleExists(a.Id) && a.Id != "distributor_main_account")
+//@   && (a.Type == "BASE_ACCOUNT" ==> bech32ok(a.Id) && fromBech32(a.Id) != modaddr("distributor_main_account"))
+//@   && (a.Type == "INTERNAL_ACCOUNT" ==> a.Id != "")
 //@ func (account Account) Validate() (err)
 //@   ensures (err == nil) == accountValidated(account)
 //@   prop C13 C20
